@@ -94,7 +94,7 @@ pub fn query_stopped() -> bool {
     #[cfg(suiron_verif)]
     unsafe {
         if let Some(n) = VERIF_STOP_AFTER_READS {
-            if n == 0 { VERIF_STOP_AFTER_READS = None; SUIRON_STOP_QUERY = true; }
+            if n == 0 { VERIF_STOP_AFTER_READS = None; stop_query(); }
             else { VERIF_STOP_AFTER_READS = Some(n - 1); }
         }
     }
